@@ -11,8 +11,13 @@
                  non-zero, `val`, `stdev`, `extern` if non-empty).
                  `extern` is written only by the repaired export (finding F21); `ext := false` is the
                  export at the pinned commit.
-  Numbers are abstract (`NumFmt`): `fmt` = to_xmlstr, `rd` = toDouble; the only hypothesis of the
-  theorems is `rd (fmt x) = some x`.
+  Numbers are abstract in this file (`NumFmt`): `fmt` = to_xmlstr, `rd` = toDouble.  The theorems of
+  `Props/C13.lean` take either the exact law `rd (fmt x) = some x` on the representable numbers
+  (`NumFmt.LawfulOn` below, `Codec.LawfulOn`) or the law of a printer with finitely many digits
+  (`Codec.PrinterOn`, `Lemmas/ExportQuant.lean`); `Props/C13Codec.lean` instantiates both over ℚ with the
+  formats the code uses (`realCodec`, `Lemmas/DecimalCodecC13.lean`: `%.pg`, `%.16e` for `<cov-mat>`,
+  gama's sexagesimal text), the format of every number-printing site being regenerated
+  (`Gen/GkfFmtSites.lean`).  IEEE doubles are in no law.
 -/
 import Gama.Gen.GkfAttrs
 namespace Gama.Export
